@@ -85,12 +85,12 @@ SetObsOK(s, obs) ==
 (* ============================== vector ======================================================== *)
 (* state: the sequence.  Positions are 0-based like the iterators' distance from begin().          *)
 VecDefault == 0
-VecCmp(a, b) ==      \* <<a == b, a < b>> as 0/1, lexicographic
+VecCmp(a, b) ==      \* 2 * (a == b) + (a < b), lexicographic
   LET n == CMin(Len(a), Len(b))
       d == {i \in 1..n : a[i] # b[i]}
       f == IF d = {} THEN 0 ELSE CHOOSE i \in d : \A j \in d : i <= j
       lt == IF f = 0 THEN Len(a) < Len(b) ELSE a[f] < b[f]
-  IN <<IF a = b THEN 1 ELSE 0, IF lt THEN 1 ELSE 0>>
+  IN 2 * (IF a = b THEN 1 ELSE 0) + (IF lt THEN 1 ELSE 0)
 
 VecApply(s, op) ==
   LET n == Len(s) IN
